@@ -106,6 +106,8 @@ type Outcome struct {
 	Trace     []string
 	Threads   int
 	EndedAt   time.Duration
+	// Note: observation class set by the scenario's Check (outcome histogram of the evidence)
+	Note string
 }
 
 // Sched is the state of one execution.
